@@ -260,10 +260,11 @@ MANIFEST_TEXT = {
                 "C10_render_valid (whatever num_to_str renders is accepted by the validator), C10_sexa_denotes / C10_f_denotes / C10_d_denotes (the text denotes the value within one unit "
                 "of the last place under an independent INDI reader - sign on the whole magnitude; |x| <= 1e9 for sexagesimal), C10_parse_denotes (every text the validator grammar accepts is "
                 "parsed: integers exactly, everything else to the correctly rounded value it denotes), C10_sexa_roundtrip. Floating point enters through an abstract Arith with relative "
-                "error 2^-53 (exact arithmetic is an instance). Correspondence: exact-rational comparison with values.py/checks.py on resolution grids, carry neighbourhoods and all short "
+                "error 2^-53; exact arithmetic is an instance, and so is the model's own binary64 rounding (exactIEEE_accurate, Properties/C10b.lean: round-to-nearest-even in the normal "
+                "range has relative error <= 2^-53), giving C10_sexa_roundtrip_ieee for the model exactly as it runs in the correspondence; the protocol's sexagesimal table is pinned "
+                "(sexa_table_pinned, re-decided on the regenerated table every run). Correspondence: exact-rational comparison with values.py/checks.py on resolution grids, carry neighbourhoods and all short "
                 "strings over the number alphabet (4.5 million cases in the thorough tier); oracle renderHolds/parseHolds in Lean on the implementation's output.",
-        "note": "Trusted: Lean kernel + standard axioms; that CPython's float multiplication, float(str) and float(Fraction) round correctly (the executable instance exactIEEE used in the "
-                "correspondence is not proved to satisfy Arith.Accurate); formats outside %[flags][width][.prec]{d,f} and %w.{3,5,6,8,9}m are outside the model; values beyond binary64's "
+        "note": "Trusted: Lean kernel + standard axioms; that CPython's float(str) and float(Fraction) round as the model's flIEEE does (tied by the exact-ratio correspondence only); formats outside %[flags][width][.prec]{d,f} and %w.{3,5,6,8,9}m are outside the model; values beyond binary64's "
                 "normal range are excluded.",
         "technique": "Lean 4 proofs over exact rationals with an abstract rounding function + exact-ratio differential correspondence",
     },
